@@ -233,8 +233,10 @@ def _catalogue(request):
         return [mk([(s, hi)]), mk([(s, s)]), mk([(s, 0xFFFF)]), mk([(max(1, s - 1), max(1, s - 1))]), mk([(s, max(0, s - 1))]), mk([]), _err(op), _err(op, 0x0E), mk([(s, s), (max(1, s - 1), max(1, s - 1))])]
     if isinstance(request, att.ATT_Read_By_Type_Request):
         # characteristic declarations (7 bytes: handle, props, value handle, uuid16) or include declarations (8 bytes)
-        mk = lambda hs: att.ATT_Read_By_Type_Response(length=7, attribute_data_list=b''.join(struct.pack('<HBHH', h, 2, min(0xFFFF, h + 1), 0x2A00) for h in hs))
-        return [mk([s]), mk([s, hi]), mk([max(1, s - 1)]), mk([0xFFFF]), mk([0]), mk([]), _err(op), _err(op, 0x0E), mk([s, max(1, s - 1)]), mk([hi, s, max(1, s - 1)])]
+        # an entry is a declaration handle, or (declaration handle, declared value handle) when the value handle lies about its position
+        mk = lambda hs: att.ATT_Read_By_Type_Response(length=7, attribute_data_list=b''.join(
+            struct.pack('<HBHH', h[0] if isinstance(h, tuple) else h, 2, h[1] if isinstance(h, tuple) else min(0xFFFF, h + 1), 0x2A00) for h in hs))
+        return [mk([s]), mk([s, (hi, max(0, s - 1))]), mk([max(1, s - 1)]), mk([0xFFFF]), mk([0]), mk([]), _err(op), _err(op, 0x0E), mk([s, max(1, s - 1)]), mk([hi, s, max(1, s - 1)])]
     if isinstance(request, att.ATT_Find_Information_Request):
         mk = lambda hs: att.ATT_Find_Information_Response(format=1, information_data=b''.join(struct.pack('<HH', h, 0x2902) for h in hs))
         return [mk([s]), mk([s, hi]), mk([max(1, s - 1)]), mk([0xFFFF]), mk([0]), mk([]), _err(op), _err(op, 0x0E), mk([s, max(1, s - 1)]), mk([hi, s, max(1, s - 1)])]
@@ -263,7 +265,7 @@ _PROCS = ['discover_services', 'discover_service', 'discover_included_services',
 @harness(pre=['0 <= r1 <= 9 and 0 <= r2 <= 9 and 0 <= r3 <= 9'], family='termination', twin=True, kernels=K_CLI, timeout=(120, 400),
          canaries=[('loop-without-progress-check', _canary_no_progress_check)],
          grids=[(('quick',), {'proc': _PROCS, 'r4': [0, 2, 5, 8]}), (('thorough',), {'proc': _PROCS, 'r4': [0, 1, 2, 3, 4, 5, 6, 7, 8, 9]})],
-         bounds='each discovery procedure against a peer that answers up to 4 rounds with responses picked by symbolic indices from the adversarial catalogue (empty lists, handles below the requested range, ranges ending below their start, lists that start in range and end below it, errors; then Attribute Not Found): every request after the first starts strictly above the previous one (the loop variant), at most 5 requests are needed, and the procedure returns or raises')
+         bounds='each discovery procedure against a peer that answers up to 4 rounds with responses picked by symbolic indices from the adversarial catalogue (empty lists, handles below the requested range, ranges ending below their start, lists that start in range and end below it, a declaration in range whose declared value handle lies below the range, errors; then Attribute Not Found): every request after the first starts strictly above the previous one (the loop variant), at most 5 requests are needed, and the procedure returns or raises')
 def discovery_terminates(r1: int, r2: int, r3: int, r4: int, proc: str) -> bool:
     picks = [C(r1, 0, 9), C(r2, 0, 9), C(r3, 0, 9), r4]
     with untraced():
